@@ -135,6 +135,14 @@ def gen_config(rng, tier, profile):
     s['MIN_RESET_STAT_FLOW'] = rng.choice([1, 3])
     s['MIN_RESET_RATIO'] = rng.choice([0.5, 0.9])
     s['MIN_RESET_INTERVAL'] = rng.choice([0, 1, 5])
+  if profile == 'c16' and 'aggregated' in method:
+    # the per-rule cache of resolved names: none (default), LRU, or entries that expire
+    r = rng.random()
+    if r < 0.2:
+      s['CACHE_METRIC_NAMES_MAX'] = rng.choice([1, 2, 100])
+    elif r < 0.5:
+      s['CACHE_METRIC_NAMES_MAX'] = rng.choice([2, 100])
+      s['CACHE_METRIC_NAMES_TTL'] = rng.choice([1, 30])
   files = {'relay-rules.conf': gen_relay_rules(rng, dests),
            'aggregation-rules.conf': '\n'.join(rng.sample(AGG_RULES, rng.randint(1, len(AGG_RULES)))) + '\n'}
   return {'daemon': 'relay', 'settings': s, 'files': files, 'profile': profile}
@@ -237,6 +245,14 @@ def gen_plan(rng, cfg, tier, profile):
       ops.append(['advance', rng.choice([0.0, 0.0001, 0.001, 0.02, 0.6, 1.0, 2.5, 6.0, 6.0, 31.0])])
     elif k == 'rulesfile':
       # the aggregation rules change under the running relay (re-read every 10 s)
+      r = rng.random()
+      if r < 0.25:
+        # a non-atomic replacement: the file is gone when a reload tick fires, then back
+        ops.append(['file', 'aggregation-rules.conf', None])
+        ops.append(['advance', rng.choice([10.0, 10.0, 3.0, 21.0])])
+      elif r < 0.45:
+        # the next re-read of the file fails with an I/O error (at open / after one line)
+        ops.append(['rules_fault', rng.choice(['open', 'iter', 'iter'])])
       ops.append(['file', 'aggregation-rules.conf',
                   '\n'.join(rng.sample(AGG_RULES + AGG_RULES_ALT, rng.randint(1, 5))) + '\n'])
       ops.append(['advance', rng.choice([10.0, 10.5, 12.0, 21.0])])
@@ -257,6 +273,11 @@ def gen_plan(rng, cfg, tier, profile):
   plan['close_delay'] = rng.choice([0.0, 0.0, 0.00005, 0.001, 0.05])
   plan['jitter_seed'] = rng.randrange(1 << 30)
   plan['p_tie'] = rng.choice([0.0, 0.5, 0.9])
+  if profile == 'c15' and rng.random() < 0.5:
+    # the downstream daemon pauses its receivers while it stores its n-th datapoint
+    plan['dn_pause'] = sorted(set(rng.randint(1, 60) for _ in range(rng.randint(1, 4))))
+  if profile == 'c15' and rng.random() < 0.35:
+    plan['dn_idle'] = rng.choice([2, 5, 5, 30])     # the downstream daemon's idle timeout
   if profile in ('c05', 'c06', 'c16'):
     plan['route_checks'] = True
     plan['stripe'] = rng.choice([211, 997, 4099])
